@@ -204,25 +204,29 @@ class Runner:
         self.pending = []
         self.routes = {r: Route(uno, self.ql, r) for r in TX.ROUTES}
 
+    def verdict(self, case, route, live=None, fast=False):
+        """-> (impl result, first failed clause or None); out of the domain only 'inputs not modified' is judged"""
+        c15 = self.c15
+        out, nm = c15.run_impl(case, self.Event, self.routes[route], live=live)
+        if nm:
+            return out, "inputs-not-modified: " + nm
+        if not c15.in_domain(case):
+            return out, None
+        if out[0] != "ok":
+            return out, f"raises: union_no_overlap raised {out[1]} on sorted non-overlapping inputs"
+        bad = oracle_union_fast(case, out[1]) if fast else c15.oracle_union(case, out[1])
+        if not fast and (oracle_union_fast(case, out[1]) is None) != (bad is None):
+            self.ck.count("interval-oracle-differs-from-oracle(harness defect)")
+        return out, bad
+
     def call(self, case, route, live=None, replay=None, fast=False, model=True, shrink=None):
         ck, c15 = self.ck, self.c15
-        R = self.routes[route]
-        out, nm = c15.run_impl(case, self.Event, R, live=live)
+        out, bad = self.verdict(case, route, live, fast)
         rep = replay or (lambda: c15.replay_obj(c15.jsonable(case), out))
         ck.evaluations += 1
         ck.count("stream=" + case["stream"])
         ck.count("route:" + route)
-        dom = c15.in_domain(case)
-        bad = None
-        if nm:
-            bad = "inputs-not-modified: " + nm
-        elif dom and out[0] != "ok":
-            bad = f"raises: union_no_overlap raised {out[1]} on sorted non-overlapping inputs"
-        elif dom:
-            bad = oracle_union_fast(case, out[1]) if fast else c15.oracle_union(case, out[1])
-            if not fast and (oracle_union_fast(case, out[1]) is None) != (bad is None):
-                ck.count("interval-oracle-differs-from-oracle(harness defect)")
-        else:
+        if not c15.in_domain(case):
             ck.count("session:out-of-domain(correspondence only)")
         if bad:
             d = rep()
@@ -287,7 +291,14 @@ def run(ck, c15, Event, uno, have_driver):
             S.record(name, what, {"route": route, "module": "aw_transform.union_no_overlap", "name": "union_no_overlap"})
             k = len(S.log)
             case = live_case(S, "session")
-            bad = R.call(case, route, live=(S.lists["a"], S.lists["b"]), replay=lambda S=S, k=k: S.replay(k))
+
+            def shrink(bad, d, S=S, k=k):
+                def judge(st, args):
+                    c = {"kind": "union", "stream": "session", "a": [TX.spec_of(o) for o in args[0]], "b": [TX.spec_of(o) for o in args[1]]}
+                    return R.verdict(c, st["call"]["route"], live=(args[0], args[1]))[1]
+                steps, ok = TX.minimise_session(S.log[:k], Event, TX.generic_call(R.ql), judge, bad.split(":")[0])
+                return bad, TX.session_replay(steps, ok)
+            bad = R.call(case, route, live=(S.lists["a"], S.lists["b"]), replay=lambda S=S, k=k: S.replay(k), shrink=shrink)
             S.results.append(R.routes[route].last)
             ck.count("session-step:" + name)
             if bad:
@@ -305,8 +316,7 @@ def run(ck, c15, Event, uno, have_driver):
             sig = bad.split(":")[0]
 
             def verdict(c):
-                o, nm = c15.run_impl(c, Event, R.routes[route])
-                return o, (("inputs-not-modified: " + nm) if nm else (oracle_union_fast(c, o[1]) if o[0] == "ok" else "raises: " + str(o[1])))
+                return R.verdict(c, route, fast=True)
 
             def fails(a, b):
                 m = verdict(dict(case, a=a, b=b))[1]
